@@ -1219,6 +1219,33 @@ class Flow:
                 for ai, a in enumerate(t["args"]):
                     if a["k"] in ("copy", "move") and a["pl"]["l"] in locs and not a["pl"]["p"]:
                         out.append((pb, b2, t, ai))
+            # the closure value captured by another closure built in the same body (`let f = |x| ..; it.map(|o| o.map(f))`):
+            # its uses are the calls inside that closure which pass the captured variable on
+            for b2, s2i, s2 in pb.stmts():
+                if s2["k"] == "assign" and s2["rv"]["k"] == "agg" and s2["rv"].get("ak") in ("closure", "coroutine_closure", "coroutine") and \
+                        s2["rv"].get("def") != cbody.id:
+                    for ui, o in enumerate(s2["rv"]["ops"]):
+                        if o["k"] in ("copy", "move") and o["pl"]["l"] in locs and not o["pl"]["p"]:
+                            cb2 = self.fb.bodies.get(s2["rv"].get("def"))
+                            if cb2 is None:
+                                continue
+                            def is_upvar(pl):
+                                fs = [x for x in pl["p"] if isinstance(x, dict) and "f" in x]
+                                return pl["l"] == 1 and len(fs) == 1 and fs[0]["f"] == ui
+                            locs2 = set()
+                            ch2 = True
+                            while ch2:
+                                ch2 = False
+                                for b3, s3i, s3 in cb2.stmts():
+                                    if s3["k"] == "assign" and s3["rv"]["k"] in ("use", "ref", "copy_for_deref") and not s3["pl"]["p"] and s3["pl"]["l"] not in locs2:
+                                        sp = s3["rv"]["op"].get("pl") if s3["rv"]["k"] == "use" else s3["rv"]["pl"]
+                                        if sp and (is_upvar(sp) or (sp["l"] in locs2 and all(x == "*" for x in sp["p"]))):
+                                            locs2.add(s3["pl"]["l"])
+                                            ch2 = True
+                            for b3, t3 in cb2.calls():
+                                for ai, a in enumerate(t3["args"]):
+                                    if a["k"] in ("copy", "move") and (is_upvar(a["pl"]) or (a["pl"]["l"] in locs2 and not a["pl"]["p"])):
+                                        out.append((cb2, b3, t3, ai))
         return out
 
     def _closure_param(self, cbody, local, path, mode):
